@@ -21,11 +21,14 @@ func init() {
 			"R2 every access to the per-stream buffer structure (SCTPConn.s) in functions reachable from ReadAtLeast happens with streamBuffMu held (held on entry at every call site for the unexported helper); " +
 			"R3 in ReadStream, bytes received for another stream flow only into the buffer of that other stream, and freshly received bytes of the requested stream are returned only through the function that first drains older buffered bytes of that stream; " +
 			"R4 replies: see C16 R2/R3 (answer's stream = request's stream, passed unchanged to WriteStream). " +
+			"R3 also: a function that takes bytes out of a per-stream buffer reports the stream number of that very buffer. R5 contradiction rule on the buffer heap: where some path re-establishes the heap order after changing a buffer's length, every path that changes it must. " +
 			"NOT decided (not applicable to static analysis beyond R1–R4): chunk interleavings, heap ordering of the stream buffers, partial reads — histories of a run-time data structure.",
 		Rules: map[string]string{
 			"R1": "one message, one stream: the body is read from the stream the header came from",
 			"R2": "per-stream buffers only touched under streamBuffMu on the library's read path",
-			"R3": "no cross-stream delivery; older buffered bytes of a stream are delivered before fresh ones",
+			"R3": "no cross-stream delivery; older buffered bytes of a stream are delivered before fresh ones; the stream reported is the buffer's own",
+			"R4": "replies carry the request's stream number unchanged to WriteStream (shared with C16 R2)",
+			"R5": "heap of stream buffers: if any path re-fixes the heap after a length change, every such path does",
 		},
 		MinInstances: map[string]int{"R1": 3, "R2": 3, "R3": 2},
 		Assumptions:  []string{"sctp.SCTPConn.SCTPRead reports the stream of the bytes it returns", "the connection has a single reader (the connection loop, C08)"},
